@@ -220,3 +220,26 @@ Theorem C14_gff_bytes_to_regions : forall (regs : list (list N * (nat * nat))) (
   bind (codes rs (length genome)) (fun inter => Ok (TopK.ssort cregion (fun a b => (cr_start a <? cr_start b)%Z) rs, inter)).
 Proof. exact gff_bytes_to_regions. Qed.
 Print Assumptions C14_gff_bytes_to_regions.
+(* the ##FASTA section of a GFF3 file - one record, its sequence cut into lines, every symbol in the alphabet - is returned by the list
+   reader of C16 and decoded as that sequence in upper case ... *)
+Theorem C14_gff_fasta_section : forall (hdr : list N) (chunks : list (list N)) (id : list N),
+  first_field hdr = Some id -> concat chunks <> [] -> Forall valid_chunk chunks ->
+  Forall ok_line ((62%N :: hdr) :: chunks) ->
+  fasta_of ((62%N :: hdr) :: chunks) = Ok (Some [{| r_id := id; r_desc := hdr; r_seq := map upper (concat chunks); r_idx := 0 |}]).
+Proof. exact gff_fasta_section. Qed.
+Print Assumptions C14_gff_fasta_section.
+(* ... so the whole chain for a GFF3 file holds with structural premises only: bytes -> lines -> directives, rows, sequence
+   section -> rows grouped by ID -> regions *)
+Theorem C14_gff_bytes_to_regions_full : forall (regs : list (list N * (nat * nat))) (rows : list grow) (hdr : list N) (chunks : list (list N)) (id : list N)
+        (gs : list group) (rs : list cregion) (lines : list (list N * bool)),
+  let genome := degap (map upper (concat chunks)) in
+  Forall wf_region regs -> rows <> [] -> Forall wf_row rows ->
+  first_field hdr = Some id -> concat chunks <> [] -> Forall valid_chunk chunks -> Forall ok_line ((62%N :: hdr) :: chunks) ->
+  map feat_of rows = rows_of gs -> Forall group_ok gs -> NoDup (map fst gs) ->
+  Forall2 (fun g x => region_from_gfeats genome (snd g) = Ok x) gs rs -> Forall (fun x => cr_name x <> []) rs ->
+  Forall (fun le => ok_line (fst le)) lines ->
+  map fst lines = version_line :: map region_line regs ++ map render_row rows ++ bs "##FASTA" :: (62%N :: hdr) :: chunks ->
+  regions_of_gff_text (FastaLayout.render lines) =
+  bind (codes rs (length genome)) (fun inter => Ok (TopK.ssort cregion (fun a b => (cr_start a <? cr_start b)%Z) rs, inter)).
+Proof. exact gff_bytes_to_regions_full. Qed.
+Print Assumptions C14_gff_bytes_to_regions_full.
